@@ -76,7 +76,6 @@ def main():
                     os.remove(rp)
     finally:
         sh(["git", "-C", "/repo", "worktree", "remove", "--force", wt])
-        sh(["bash", "-c", "rm -rf %s/.build/sim-*" % VERIF])
     json.dump(results, open(results_path, "w"), indent=1, sort_keys=True)
 
 
